@@ -366,7 +366,9 @@ class Prop(Check):
                 "Peg.C19_partial_agree_at", "Peg.C19_partial_accept_at", "Peg.C19_posdet_at", "Peg.C19_partial_warm_at",
                 "Peg.C19_statement_false", "Peg.C19_comment_false", "Tx.C19_load_at", "Peg.uniformAtB_sound",
                 "Peg.plain_sim_at", "Peg.memo_sim_at", "Peg.memo_rev", "Peg.memo_fin_plain", "Peg.bodyNode_ev",
-                "Peg.parseLim_ev"]
+                "Peg.parseLim_ev",
+                # round V19: terminals are not memoized; an alias of a base type IS the base type's match
+                "Peg.C19_match_not_memoized", "Tx.C19_alias_base_root", "Tx.C19_base_terminal"]
     DRIVER = "Drivers/PegTx.lean"      # Drivers/Peg.lean + op compile (Tx.compile on the grammar AST)
     QUICK_CASES = 250
     CASE_TIMEOUT = 20
